@@ -54,7 +54,12 @@ CFG = dict(
          "aimed at one of the case's rules (its positive criteria satisfied on CIDR / port-range edges, set members) and then, 45% of them, "
          "pushed over one edge (port +-1, address +-1, other protocol); every probe is "
          "executed on the real instruction stream by the Coq eBPF interpreter (following tail calls) and compared with the IR model and "
-         "with PolicyRef.  non-trivial = compiled, >=2 rules and >=1 match criterion; distinct by (options, rules, sets).  Three feature "
+         "with PolicyRef.  non-trivial = compiled, >=2 rules and >=1 match criterion; distinct by (options, rules, sets);  "
+         "a key-stress stream (20% of the plain cases) has rules doing SEVERAL IP-set-type lookups with the same on-stack key on one leg "
+         "(selector set positive/negated or IP+port set, then 0-6 numeric port ranges, then 1-2 named-port sets, positive or negated; src, dst "
+         "or both legs), named-port members nested inside the selector sets, and the same rules and probes compiled with three jump limits "
+         "drawn over the whole jump count of the unsplit program, so that every split point inside a rule gets hit (an uninitialised key byte "
+         "after a mid-rule split is an interpreter error, hence no verdict).  Three feature "
          "streams (10% each) carry profile Log rules, protocol names icmpv6/udplite, profile Pass rules; two small out-of-domain streams "
          "(two positive destination selector sets: the builder must panic and the model says so; a tier without policies) are compared "
          "model-vs-implementation only.",
